@@ -1402,27 +1402,42 @@ class Container:
         if solute not in self.contents:
             raise ValueError(f"Container does not contain {solute.name}.")
 
-        new_ratio, numerator, denominator = Unit.calculate_concentration_ratio(solute, concentration, solvent)
+        new_concentration, numerator, denominator = Unit.parse_concentration(concentration)
+        if numerator not in ('g', 'L', 'mol', 'U'):
+            raise ValueError("Invalid unit in numerator.")
+        if denominator not in ('g', 'L', 'mol'):
+            raise ValueError("Invalid unit in denominator.")
 
         if numerator == 'U':
             if not solute.is_enzyme():
                 raise TypeError("Solute must be an enzyme.")
 
-        current_ratio = self.contents[solute] / sum(self.contents[substance] for
-                                                    substance in self.contents if not substance.is_enzyme())
-
-        if new_ratio <= 0:
+        if new_concentration <= 0:
             raise ValueError("Solution is impossible to create.")
 
-        if abs(new_ratio - current_ratio) <= 1e-6:
+        def amount_in(substance, amount, unit):
+            """ Converts a stored amount of substance to unit. """
+            return Unit.convert_from(substance, amount,
+                                     'U' if substance.is_enzyme() else config.moles_storage_unit, unit)
+
+        # concentration is amount of solute (in numerator unit) over total amount of the mixture (in denominator unit)
+        solute_amount = amount_in(solute, self.contents[solute], numerator)
+        current_total = sum(amount_in(substance, amount, denominator) for substance, amount in self.contents.items())
+        solvent_per_unit = amount_in(solvent, 1, denominator)
+        if solute_amount <= 0 or current_total <= 0 or solvent_per_unit <= 0:
+            raise ValueError("Solution is impossible to create.")
+        current_concentration = solute_amount / current_total
+
+        if math.isclose(new_concentration, current_concentration, rel_tol=1e-6):
             return deepcopy(self)
 
-        if new_ratio > current_ratio:
+        if new_concentration > current_concentration:
             raise ValueError("Desired concentration is higher than current concentration.")
 
-        current_umoles = Unit.convert_from_storage(self.contents.get(solvent, 0), 'umol')
-        required_umoles = Unit.convert_from_storage(self.contents[solute], 'umol') / new_ratio - current_umoles
-        new_volume = self.volume + Unit.convert(solvent, f"{required_umoles} umol", config.volume_storage_unit)
+        # solute_amount / (current_total + required * solvent_per_unit) = new_concentration
+        required = (solute_amount / new_concentration - current_total) / solvent_per_unit
+        needed = f"{required} {'U' if solvent.is_enzyme() else config.moles_storage_unit}"
+        new_volume = self.volume + Unit.convert(solvent, needed, config.volume_storage_unit)
 
         if _exceeds(new_volume, self.max_volume):
             raise ValueError("Dilute solution will not fit in container.")
@@ -1433,9 +1448,8 @@ class Container:
             destination.name = name
         else:
             destination = self
-        needed_umoles = f"{required_umoles} umol"
-        result = destination._add(solvent, needed_umoles)
-        needed_volume, unit = Unit.get_human_readable_unit(Unit.convert(solvent, needed_umoles, 'L'), 'L')
+        result = destination._add(solvent, needed)
+        needed_volume, unit = Unit.get_human_readable_unit(Unit.convert(solvent, needed, 'L'), 'L')
         precision = config.precisions[unit] if unit in config.precisions else config.precisions['default']
         result.instructions += f"\nDilute with {round(needed_volume, precision)} {unit} of {solvent.name}."
         return result
